@@ -157,7 +157,7 @@ pub fn caploc(text: &str) -> regex::CaptureLocations {
 pub const STEP_LOC: step::Location = step::Location { path: "vlab/steps.rs", line: 42, column: 3 };
 
 /// Decoration alphabet for names / texts (C14): quotes, markup, non-ASCII, combining marks.
-const DECOR: &[&str] = &["\"q\"", "<b>", "&amp;", "a>b", "'s", "é", "日本", "e\u{301}", "\\n", "{x}", "%s", "\t", "]]>", "--", "<!--", "&#10;"];
+const DECOR: &[&str] = &["\"q\"", "<b>", "&amp;", "a>b", "'s", "é", "日本", "e\u{301}", "\\n", "{x}", "%s", "]]>", "--", "<!--", "&#10;"];
 
 fn decorate(t: &mut Tape, base: &str, p: &SProfile, excluded: &mut u64) -> String {
     if !p.decorate || !pct(t, 40) {
